@@ -116,12 +116,13 @@ NHOOD = ["Radius", "KNearest", "LSHNearest", "Clusters", "TreeBandit"]
 @st.composite
 def locality_plan_st(draw, tier, ctx):
     cfg = draw_config(draw, ctx, NHOOD)
-    h = gen.History(draw, cfg, max_rows=8, grid=draw(st.sampled_from(["int", "small"])))
+    h = gen.History(draw, cfg, max_rows=8, grid=draw(st.sampled_from(["int", "small", "half", "half"])))
     h.fit()
     for _ in range(draw(st.integers(0, 3))):
         gen.step_any(h, ["partial_fit", "partial_fit", "add_arm", "remove_arm"])
     n = draw(st.integers(2, 7))
     rows = draw(gen.contexts_st(n, h.d, h.grid))
+    place_radius(draw, cfg, h.ops, rows)
     seeds = draw(st.lists(st.integers(0, 2 ** 31 - 2), min_size=n, max_size=n))
     comps = None
     if n > 5:
@@ -133,6 +134,23 @@ def locality_plan_st(draw, tier, ctx):
     interleave = draw(st.lists(st.integers(0, 2), min_size=3, max_size=12)) if draw(st.booleans()) else None
     return {"config": cfg, "ops": h.ops, "rows": rows, "seeds": seeds, "comps": comps, "order_key": order_key,
             "is_predict": draw(st.booleans()), "interleave": interleave}
+
+
+def place_radius(draw, cfg, op_list, rows):
+    """Radius bandits: two times in three the radius is set to a realised distance between a query row and a stored
+    row under the configured metric (scipy is only used to pick an interesting value, not as an oracle), so that
+    neighbourhoods are neither empty nor everything and rows sit exactly on the boundary."""
+    if not cfg["np"] or cfg["np"][0] != "Radius" or "radius" not in cfg["np"][1] or draw(st.integers(0, 2)) == 0:
+        return
+    from scipy.spatial.distance import cdist
+    stored = [r for op in op_list if op[0] in ops.TRAIN_OPS for r in op[3]]
+    try:
+        dm = cdist(np.asarray(stored, dtype=float), np.asarray(rows, dtype=float), metric=cfg["np"][1]["metric"])
+    except Exception:
+        return
+    vals = sorted({float(v) for v in dm.ravel() if np.isfinite(v) and v > 0})
+    if vals:
+        cfg["np"][1]["radius"] = vals[draw(st.integers(0, len(vals) - 1))]
 
 
 def locality_strategy(tier, ctx):
@@ -254,13 +272,16 @@ def schedule_plan_st(draw, tier, ctx):
         cfg["lp"] = ["ThompsonSampling", {"binarizer": draw(gen.binarizer_st(cfg["arms"]))}]
     cfg["n_jobs"] = nj
     cfg["backend"] = draw(st.sampled_from([None, "threading", "loky"]))
-    h = gen.History(draw, cfg, max_rows=8, query_rows=(2, 3, 5, 6))
+    h = gen.History(draw, cfg, max_rows=8, query_rows=(2, 3, 5, 6), grid=draw(st.sampled_from(["int", "half"])))
     h.fit()
     for _ in range(draw(st.integers(1, 6))):
         gen.step_any(h, ["partial_fit", "partial_fit", "fit", "add_arm", "remove_arm", "predict",
                          "predict_expectations", "predict_expectations"])
     h.predict_expectations()
     h.predict()
+    if h.contextual:
+        place_radius(draw, cfg, h.ops, [r for op in h.ops if op[0] in ("predict", "predict_expectations") and op[1]
+                                         for r in op[1]])
     big_query(draw, h)
     keys = draw(st.lists(st.integers(0, 6), min_size=4, max_size=12))
     return {"config": cfg, "ops": h.ops, "keys": keys, "mode": draw(st.sampled_from(["thread", "process"]))}
